@@ -69,14 +69,25 @@ func (s *shardManager) Shards() ([]*shard.Shard, error) {
 		return nil, errors.Wrap(err, "list pod")
 	}
 
-	ps := map[string]v1.Pod{}
+	// getPods selects by match labels only, the match expressions of the selector are applied here
+	// (a selector that has nothing but expressions would otherwise select every pod of the namespace)
+	exprs, err := v12.LabelSelectorAsSelector(&v12.LabelSelector{MatchExpressions: s.sts.Spec.Selector.MatchExpressions})
+	if err != nil {
+		return nil, errors.Wrap(err, "selector of statefulset")
+	}
 
+	ps := map[string]v1.Pod{}
+	total := 0
 	for _, p := range pods.Items {
+		if !exprs.Matches(labels.Set(p.Labels)) {
+			continue
+		}
 		ps[p.Name] = p
+		total++
 	}
 
 	ret := make([]*shard.Shard, 0)
-	for index := range pods.Items {
+	for index := 0; index < total; index++ {
 		p := ps[fmt.Sprintf("%s-%d", s.sts.Name, index)]
 		url := fmt.Sprintf("http://%s:%d", p.Status.PodIP, s.port)
 		ret = append(ret, shard.NewShard(p.Name, url, p.Status.PodIP != "", s.lg.WithField("shard", p.Name)))
